@@ -20,7 +20,8 @@ META = {
         'declared length (an explicit NotEnoughData guard or the bounds check inside parse_raw/parse_bytes) before its '
         'body is interpreted. R3: nothing before the gate converts a short read into another error class. R4: every '
         'header-size constant used in a pre-check is <= the minimal size of the class layout and >= what is read '
-        'unconditionally before the next check.'),
+        'unconditionally before the next check.'
+        ' R5: every handler that can catch NotEnoughData on a binary parse path re-raises it (two reviewed exceptions). R6: the LDAP bridge pattern is matched against asn1crypto\'s own message template for byte counts of every magnitude.'),
     'assumptions': ['the induction from R1-R4 (+C03.R5) to the reader-loop statement is an argument in DESIGN.md, not machine checked',
                     'LDAP: the missing count is taken from an asn1crypto error message (library behaviour trusted)'],
     'trusted_base': ['python ast', 'sa.linform', 'sa.interp/layout (framing layouts)'],
